@@ -193,7 +193,7 @@ class Check:
         for path, suffix in self.violations:
             print(f"VIOLATION property={self.pid} replay={path}{suffix}")
         print(
-            f"{self.pid} tier={self.tier} seed={self.seed} obligations={cov['obligations']} discharged={cov['discharged']} "
+            f"{self.pid} tier={self.tier} seed={self.seed} obligations={self.proof['obligations']} discharged={self.proof['discharged']} "
             f"evaluations={cov.get('evaluations', 0)} violations={len(self.violations)} wall={wall:.1f}s"
         )
         return 1 if self.violations else 0
